@@ -981,7 +981,12 @@ class SyncObj(object):
                 if not self.__serializer.setTransmissionData(serialized):
                     # Partial snapshot: nothing of the local log was verified against the leader yet
                     return
-                matchIdx = self.__loadDumpFile(clearJournal=True)
+                matchIdx = None
+                if message.get('snapshot_last') is not None:
+                    # Decided before the snapshot is read: a user-supplied deserializer restores the object as it reads
+                    matchIdx = self.__snapshotAlreadyHeld(*message['snapshot_last'])
+                if matchIdx is None:
+                    matchIdx = self.__loadDumpFile(clearJournal=True)
                 if matchIdx is False:
                     # The snapshot could not be loaded: nothing was installed and nothing of the local log was
                     # verified against the leader. No acknowledgement, the commit index stays where it is.
@@ -1281,6 +1286,7 @@ class SyncObj(object):
                         'term': self.__raftCurrentTerm,
                         'commit_index': self.__raftCommitIndex,
                         'serialized': transmissionData,
+                        'snapshot_last': (self.__raftLog[1][1], self.__raftLog[1][2]) if len(self.__raftLog) > 1 else None,
                     }
                     self.__transport.send(node, message)
                     if node not in self.__connectedNodes:
@@ -1459,17 +1465,23 @@ class SyncObj(object):
         # (the enabled code version travels with the internal data too: a user serializer does not get the object's attributes)
         self.__serializer.serialize((data, lastAppliedEntries[1], lastAppliedEntries[0], cluster, self.__enabledCodeVersion), lastAppliedEntries[0][1])
 
+    def __snapshotAlreadyHeld(self, snapshotIdx, snapshotTerm):
+        # A snapshot received from the leader is useless if it ends within the committed prefix or at an entry
+        # held here. Returns the index up to which the local log is then known to equal the leader's, else None.
+        if snapshotIdx <= self.__raftCommitIndex:
+            return self.__raftCommitIndex
+        ownEntries = self.__getEntries(snapshotIdx, 1)
+        if ownEntries and ownEntries[0][2] == snapshotTerm:
+            return snapshotIdx
+        return None
+
     def __loadDumpFile(self, clearJournal):
         try:
             data = self.__serializer.deserialize(incoming=clearJournal)
             if clearJournal:
-                # Received from the leader: useless if it ends within the committed prefix or at an entry held here
-                snapshotIdx, snapshotTerm = data[1][1], data[1][2]
-                if snapshotIdx <= self.__raftCommitIndex:
-                    return self.__raftCommitIndex
-                ownEntries = self.__getEntries(snapshotIdx, 1)
-                if ownEntries and ownEntries[0][2] == snapshotTerm:
-                    return snapshotIdx
+                matchIdx = self.__snapshotAlreadyHeld(data[1][1], data[1][2])
+                if matchIdx is not None:
+                    return matchIdx
                 # It will be installed: only now does it replace the stored snapshot
                 self.__serializer.acceptTransmission()
             if data[0] is not None:
